@@ -333,3 +333,6 @@ _quick("C06", "C06_waitgrant", "a request with E = 3 s queued behind a holder wh
 
 _quick("C07", "C07_valexpired", "three keys take holds carrying a value, persisted at once; the first / middle / last of them (or none) with E = 1 s, the others 120 s; restart 5 s later: the short hold is gone, every other hold is restored with its own value", ["-witness", "4"])
 _quick("C08", "C07_valexpired", "(also under C07) an uncut log whose value file holds the frame of a record the loader skips as run out: the later records are recovered with their own values — the recovered state is the state of the complete records", ["-witness", "4"])
+
+_quick("C13", "C13_streambuf", "a 64-byte StreamReaderBuffer filled with 1..64 numbered bytes from a connection, then every program of 4 reads (Read into 8 / 24 / 40 bytes or ReadBytesSize of those sizes): the bytes handed out are those that arrived, in order, sizes as a byte queue's, no read past the buffer", ["-witness", "20"])
+_quick("C03", "C18_reconnect2", "(also under C18) replies to requests a closed connection left queued, across two reconnects under the same client id: each is delivered exactly once to the connection that then speaks for the id", ["-witness", "4"], reach=["end", "third", "dropped"])
